@@ -258,6 +258,18 @@ fn task_job(specs: Vec<Spec>, len: usize, jumps: bool) -> Job {
                 );
               }
             }
+            // neither declined nor cancelled, and nothing left that could ever run it
+            // again (no ready task, no live timer): the task has silently stopped
+            if t.cancelled_runs.is_none() && runs.len() < n && w.dead_quiet() {
+              obs.fail(
+                "c19:repeat-stalled",
+                format!(
+                  "{specs:?} after [{}]: repeating task {i} ran {} of its {n} rounds, was not cancelled, and nothing is scheduled any more",
+                  hist.join(" "),
+                  runs.len()
+                ),
+              );
+            }
             if runs.len() > n {
               obs.fail(
                 "c19:repeat-after-decline",
@@ -372,6 +384,10 @@ pub fn plan(tier: Tier) -> Plan {
     }
   }
   let mut jobs = vec![];
+  // a zero-length period: every round inside one poll, more rounds than any
+  // per-poll budget an implementation might have
+  jobs.push(task_job(vec![Spec { kind: Kind::Repeat(0, 12), delay: None }], 5, false));
+  jobs.push(task_job(vec![Spec { kind: Kind::RepeatFirst(1, 0, 12), delay: None }], 5, false));
   let (l1, l2, l3, jumps) = match tier {
     Tier::Quick => (9, 7, 0, false),
     Tier::Thorough => (12, 10, 7, true),
@@ -396,7 +412,7 @@ pub fn plan(tier: Tier) -> Plan {
       prop: "C19".into(),
       tier: tier_name(tier),
       engine: "E1 opseq".into(),
-      rule: "sets of 1-3 harness tasks (OnceTask/NormalReturn, OnceTask/SubscribeReturn over a controllable subscription, RepeatTask declining after n ticks, FutureTask over a harness-resolved future; delays none/1/2 ticks) on the real LocalSpawner behind the gate: every action sequence up to the length bound over {cancel(i) (so: before the first poll, while waiting on the timer, between ticks, after completion), resolve future, tick, jump 3 ticks, run ready task k in any order}; oracle after every action: one-shot bodies at most once and not before delay (nor before their future), repeating bodies with consecutive sequence numbers at least one period apart and never after declining, nothing runs after unsubscribe() returned or after is_closed() answered true, produced subscription unsubscribed by handle teardown, and the handle of a subscribing task not closed while the subscription it made is open; non-trivial = a body ran".into(),
+      rule: "sets of 1-3 harness tasks (OnceTask/NormalReturn, OnceTask/SubscribeReturn over a controllable subscription, RepeatTask declining after n ticks, FutureTask over a harness-resolved future; delays none/1/2 ticks) on the real LocalSpawner behind the gate: every action sequence up to the length bound over {cancel(i) (so: before the first poll, while waiting on the timer, between ticks, after completion), resolve future, tick, jump 3 ticks, run ready task k in any order}; oracle after every action: one-shot bodies at most once and not before delay (nor before their future), repeating bodies with consecutive sequence numbers at least one period apart, never after declining, and never silently stalled (also with a zero-length period and 12 rounds), nothing runs after unsubscribe() returned or after is_closed() answered true, produced subscription unsubscribed by handle teardown, and the handle of a subscribing task not closed while the subscription it made is open; non-trivial = a body ran".into(),
       bounds: json!({"task_configs": specs.len(), "len_one_task": l1, "len_two_tasks": l2, "len_three_tasks": l3, "clock_jumps": jumps}),
       assumptions: vec!["task bodies are atomic (single-threaded executor); overlapping bodies are E2's business".into()],
     },
